@@ -529,10 +529,14 @@ func (c *DnsCache) GetPackedResponseWithApproximateTTL(qname string, qtype uint1
 	}
 
 	// Lock-free read: atomic pointer load (no mutex, no blocking)
+	// The TTL is loaded BEFORE the pointer (as in the slow path below): prepackResponseWithTTL
+	// stores the pointer first and the TTL second, so a TTL that passes the test belongs to
+	// these or newer bytes. Loaded the other way round, the bytes of the previous pre-pack can
+	// be paired with the TTL of the next one and go out with a TTL far above the lifetime left.
+	cachedTTL := c.packedResponseTTL.Load()
 	packedPtr := c.packedResponse.Load()
 	if packedPtr != nil && *packedPtr != nil {
 		// Use cached response if TTL difference is within threshold
-		cachedTTL := c.packedResponseTTL.Load()
 		if cachedTTL >= currentTTL {
 			if cachedTTL-currentTTL <= ttlRefreshThresholdSeconds {
 				return *packedPtr
@@ -561,7 +565,7 @@ func (c *DnsCache) GetPackedResponseWithApproximateTTL(qname string, qtype uint1
 	// that TTL is within the threshold; otherwise return nil and let the caller build an answer
 	// with the exact remaining TTL. The TTL is loaded before the pointer: prepackResponseWithTTL
 	// stores the pointer first, so a TTL that passes the test belongs to these or newer bytes.
-	cachedTTL := c.packedResponseTTL.Load()
+	cachedTTL = c.packedResponseTTL.Load()
 	packedPtr = c.packedResponse.Load()
 	if packedPtr == nil || *packedPtr == nil {
 		return nil
